@@ -336,6 +336,9 @@ worker_enable_partial_update(void *thr_ptr)
 
 	mythread_sync(thr->mutex) {
 		thr->partial_update = PARTIAL_START;
+#ifdef TUKAANI_PROJECT_XZ_VERIF
+		VERIF_MT_EV(210, thr, 0, 0, 0);
+#endif
 		mythread_cond_signal(&thr->cond);
 	}
 }
@@ -355,15 +358,24 @@ next_loop_lock:
 next_loop_unlocked:
 
 	if (thr->state == THR_IDLE) {
+#ifdef TUKAANI_PROJECT_XZ_VERIF
+		VERIF_MT_EV(200, thr, 0, 0, 0);
+#endif
 		mythread_cond_wait(&thr->cond, &thr->mutex);
 		goto next_loop_unlocked;
 	}
 
 	if (thr->state == THR_EXIT) {
+#ifdef TUKAANI_PROJECT_XZ_VERIF
+		VERIF_MT_EV(201, thr, 0, 0, 0);
+#endif
 		mythread_mutex_unlock(&thr->mutex);
 
 		lzma_free(thr->in, thr->allocator);
 		lzma_next_end(&thr->block_decoder, thr->allocator);
+#ifdef TUKAANI_PROJECT_XZ_VERIF
+		VERIF_MT_EV(209, thr, 0, 0, 0);
+#endif
 
 		mythread_mutex_destroy(&thr->mutex);
 		mythread_cond_destroy(&thr->cond);
@@ -386,10 +398,16 @@ next_loop_unlocked:
 	partial_update = thr->partial_update;
 
 	if (in_filled == thr->in_pos && partial_update != PARTIAL_START) {
+#ifdef TUKAANI_PROJECT_XZ_VERIF
+		VERIF_MT_EV(202, thr, in_filled, thr->in_pos, 0);
+#endif
 		mythread_cond_wait(&thr->cond, &thr->mutex);
 		goto next_loop_unlocked;
 	}
 
+#ifdef TUKAANI_PROJECT_XZ_VERIF
+	VERIF_MT_EV(203, thr, in_filled, partial_update, thr->in_pos);
+#endif
 	mythread_mutex_unlock(&thr->mutex);
 
 	// Pass the input in small chunks to the Block decoder.
@@ -405,6 +423,9 @@ next_loop_unlocked:
 			thr->in, &thr->in_pos, in_filled,
 			thr->outbuf->buf, &thr->out_pos,
 			thr->outbuf->allocated, LZMA_RUN);
+#ifdef TUKAANI_PROJECT_XZ_VERIF
+	VERIF_MT_EV(204, thr, ret, thr->in_pos, thr->out_pos);
+#endif
 
 	if (ret == LZMA_OK) {
 		if (partial_update != PARTIAL_DISABLED) {
@@ -426,6 +447,9 @@ next_loop_unlocked:
 			// changed.
 			mythread_sync(thr->coder->mutex) {
 				thr->outbuf->pos = thr->out_pos;
+#ifdef TUKAANI_PROJECT_XZ_VERIF
+				VERIF_MT_EV(205, thr, thr->out_pos, thr->in_pos, 0);
+#endif
 				thr->outbuf->decoder_in_pos = thr->in_pos;
 				mythread_cond_signal(&thr->coder->cond);
 			}
@@ -454,6 +478,9 @@ next_loop_unlocked:
 
 		if (thr->state != THR_EXIT)
 			thr->state = THR_IDLE;
+#ifdef TUKAANI_PROJECT_XZ_VERIF
+		VERIF_MT_EV(206, thr, ret, thr->state == THR_EXIT, 0);
+#endif
 	}
 
 	// Free the input buffer. Don't update in_size as we need
@@ -466,6 +493,9 @@ next_loop_unlocked:
 		lzma_free(thr->in, thr->allocator);
 		thr->in = NULL;
 	}
+#ifdef TUKAANI_PROJECT_XZ_VERIF
+	VERIF_MT_EV(207, thr, ret == LZMA_STREAM_END, 0, 0);
+#endif
 
 	mythread_sync(thr->coder->mutex) {
 		// Move our progress info to the main thread.
@@ -498,6 +528,9 @@ next_loop_unlocked:
 			thr->next = thr->coder->threads_free;
 			thr->coder->threads_free = thr;
 		}
+#ifdef TUKAANI_PROJECT_XZ_VERIF
+		VERIF_MT_EV(208, thr, ret, 0, 0);
+#endif
 
 		mythread_cond_signal(&thr->coder->cond);
 	}
@@ -513,6 +546,9 @@ threads_end(struct lzma_stream_coder *coder, const lzma_allocator *allocator)
 	for (uint32_t i = 0; i < coder->threads_initialized; ++i) {
 		mythread_sync(coder->threads[i].mutex) {
 			coder->threads[i].state = THR_EXIT;
+#ifdef TUKAANI_PROJECT_XZ_VERIF
+			VERIF_MT_EV(120, &coder->threads[i], i, 0, 0);
+#endif
 			mythread_cond_signal(&coder->threads[i].cond);
 		}
 	}
@@ -521,6 +557,9 @@ threads_end(struct lzma_stream_coder *coder, const lzma_allocator *allocator)
 		mythread_join(coder->threads[i].thread_id);
 
 	lzma_free(coder->threads, allocator);
+#ifdef TUKAANI_PROJECT_XZ_VERIF
+	VERIF_MT_EV(122, NULL, 0, 0, 0);
+#endif
 	coder->threads_initialized = 0;
 	coder->threads = NULL;
 	coder->threads_free = NULL;
@@ -549,6 +588,9 @@ threads_stop(struct lzma_stream_coder *coder)
 		// need to signal coder->threads[i].cond.
 		mythread_sync(coder->threads[i].mutex) {
 			coder->threads[i].state = THR_IDLE;
+#ifdef TUKAANI_PROJECT_XZ_VERIF
+			VERIF_MT_EV(123, &coder->threads[i], i, 0, 0);
+#endif
 		}
 	}
 
@@ -594,6 +636,9 @@ initialize_new_thread(struct lzma_stream_coder *coder,
 	thr->block_decoder = LZMA_NEXT_CODER_INIT;
 	thr->mem_filters = 0;
 
+#ifdef TUKAANI_PROJECT_XZ_VERIF
+	VERIF_MT_EV(124, thr, coder->threads_initialized, 0, 0);
+#endif
 	if (mythread_create(&thr->thread_id, worker_decoder, thr))
 		goto error_thread;
 
@@ -618,6 +663,9 @@ get_thread(struct lzma_stream_coder *coder, const lzma_allocator *allocator)
 {
 	// If there is a free structure on the stack, use it.
 	mythread_sync(coder->mutex) {
+#ifdef TUKAANI_PROJECT_XZ_VERIF
+		VERIF_MT_EV(126, coder->threads_free, coder->threads_free != NULL, 0, 0);
+#endif
 		if (coder->threads_free != NULL) {
 			coder->thr = coder->threads_free;
 			coder->threads_free = coder->threads_free->next;
@@ -628,6 +676,9 @@ get_thread(struct lzma_stream_coder *coder, const lzma_allocator *allocator)
 			// since it knows how much memory it will actually
 			// use (the filter chain might change).
 			coder->mem_cached -= coder->thr->mem_filters;
+#ifdef TUKAANI_PROJECT_XZ_VERIF
+			VERIF_MT_EV(125, coder->thr, 0, 0, 0);
+#endif
 		}
 	}
 
@@ -660,6 +711,9 @@ read_output_and_wait(struct lzma_stream_coder *coder,
 		bool waiting_allowed,
 		mythread_condtime *wait_abs, bool *has_blocked)
 {
+#ifdef TUKAANI_PROJECT_XZ_VERIF
+	VERIF_MT_EV(130, NULL, input_is_possible != NULL, waiting_allowed, out_size - *out_pos);
+#endif
 	lzma_ret ret = LZMA_OK;
 
 	mythread_sync(coder->mutex) {
@@ -689,6 +743,9 @@ read_output_and_wait(struct lzma_stream_coder *coder,
 				// output space.
 			} while (ret == LZMA_STREAM_END);
 
+#ifdef TUKAANI_PROJECT_XZ_VERIF
+			VERIF_MT_EV(131, NULL, ret, *out_pos - out_start, coder->thread_error);
+#endif
 			// Check if lzma_outq_read reported an error from
 			// the Block decoder.
 			if (ret != LZMA_OK)
@@ -831,6 +888,9 @@ read_output_and_wait(struct lzma_stream_coder *coder,
 					break;
 			}
 
+#ifdef TUKAANI_PROJECT_XZ_VERIF
+			VERIF_MT_EV(132, NULL, coder->timeout != 0, 0, 0);
+#endif
 			// Wait for input or output to become possible.
 			if (coder->timeout != 0) {
 				// See the comment in stream_encoder_mt.c
@@ -851,6 +911,9 @@ read_output_and_wait(struct lzma_stream_coder *coder,
 						&coder->mutex,
 						wait_abs) != 0) {
 					ret = LZMA_TIMED_OUT;
+#ifdef TUKAANI_PROJECT_XZ_VERIF
+					VERIF_MT_EV(133, NULL, 1, 0, 0);
+#endif
 					break;
 				}
 			} else {
@@ -860,6 +923,9 @@ read_output_and_wait(struct lzma_stream_coder *coder,
 		} while (ret == LZMA_OK);
 	}
 
+#ifdef TUKAANI_PROJECT_XZ_VERIF
+	VERIF_MT_EV(134, NULL, ret, input_is_possible != NULL && *input_is_possible, coder->pending_error);
+#endif
 	// If we are returning an error, then the application cannot get
 	// more output from us and thus keeping the threads running is
 	// useless and waste of CPU time.
@@ -1021,6 +1087,9 @@ stream_decode_mt(void *coder_ptr, const lzma_allocator *allocator,
 	// premature LZMA_OK wouldn't be possible as long as timeout = 0.
 	const bool waiting_allowed = action == LZMA_FINISH
 			|| (*in_pos == in_size && !coder->out_was_filled);
+#ifdef TUKAANI_PROJECT_XZ_VERIF
+	VERIF_MT_EV(100, NULL, waiting_allowed, action, in_size - *in_pos);
+#endif
 	coder->out_was_filled = false;
 
 	while (true)
@@ -1032,6 +1101,9 @@ stream_decode_mt(void *coder_ptr, const lzma_allocator *allocator,
 				LZMA_STREAM_HEADER_SIZE);
 		coder->progress_in += *in_pos - in_old;
 
+#ifdef TUKAANI_PROJECT_XZ_VERIF
+		VERIF_MT_EV(101, NULL, coder->pos < LZMA_STREAM_HEADER_SIZE, 0, 0);
+#endif
 		// Return if we didn't get the whole Stream Header yet.
 		if (coder->pos < LZMA_STREAM_HEADER_SIZE)
 			return LZMA_OK;
@@ -1041,6 +1113,9 @@ stream_decode_mt(void *coder_ptr, const lzma_allocator *allocator,
 		// Decode the Stream Header.
 		const lzma_ret ret = lzma_stream_header_decode(
 				&coder->stream_flags, coder->buffer);
+#ifdef TUKAANI_PROJECT_XZ_VERIF
+		VERIF_MT_EV(102, NULL, ret, 0, 0);
+#endif
 		if (ret != LZMA_OK)
 			return ret == LZMA_FORMAT_ERROR && !coder->first_stream
 					? LZMA_DATA_ERROR : ret;
@@ -1081,6 +1156,9 @@ stream_decode_mt(void *coder_ptr, const lzma_allocator *allocator,
 				in, in_pos, in_size);
 		coder->progress_in += *in_pos - in_old;
 
+#ifdef TUKAANI_PROJECT_XZ_VERIF
+		VERIF_MT_EV(103, NULL, ret, action == LZMA_FINISH, 0);
+#endif
 		if (ret == LZMA_OK) {
 			// We didn't decode the whole Block Header yet.
 			//
@@ -1201,6 +1279,9 @@ stream_decode_mt(void *coder_ptr, const lzma_allocator *allocator,
 				coder->filters);
 
 		if (coder->mem_next_filters == UINT64_MAX) {
+#ifdef TUKAANI_PROJECT_XZ_VERIF
+			VERIF_MT_EV(104, NULL, 0, 0, 0);
+#endif
 			// One or more unknown Filter IDs.
 			coder->pending_error = LZMA_OPTIONS_ERROR;
 			coder->sequence = SEQ_ERROR;
@@ -1218,6 +1299,9 @@ stream_decode_mt(void *coder_ptr, const lzma_allocator *allocator,
 		// This needs to be the first thing in SEQ_BLOCK_INIT
 		// to make it possible to restart decoding after increasing
 		// memlimit_stop with lzma_memlimit_set().
+#ifdef TUKAANI_PROJECT_XZ_VERIF
+		VERIF_MT_EV(105, NULL, coder->mem_next_filters > coder->memlimit_stop, 0, 0);
+#endif
 		if (coder->mem_next_filters > coder->memlimit_stop) {
 			// Flush pending output before returning
 			// LZMA_MEMLIMIT_ERROR. If the application doesn't
@@ -1241,6 +1325,9 @@ stream_decode_mt(void *coder_ptr, const lzma_allocator *allocator,
 		if (is_direct_mode_needed(coder->block_options.compressed_size)
 				|| is_direct_mode_needed(
 				coder->block_options.uncompressed_size)) {
+#ifdef TUKAANI_PROJECT_XZ_VERIF
+			VERIF_MT_EV(106, NULL, 1, 0, 0);
+#endif
 			coder->sequence = SEQ_BLOCK_DIRECT_INIT;
 			break;
 		}
@@ -1262,6 +1349,9 @@ stream_decode_mt(void *coder_ptr, const lzma_allocator *allocator,
 			// This is a theoretical case that shouldn't happen
 			// in practice unless the input file is weird (broken
 			// or malicious).
+#ifdef TUKAANI_PROJECT_XZ_VERIF
+			VERIF_MT_EV(106, NULL, 2, 0, 0);
+#endif
 			coder->sequence = SEQ_BLOCK_DIRECT_INIT;
 			break;
 		}
@@ -1273,6 +1363,9 @@ stream_decode_mt(void *coder_ptr, const lzma_allocator *allocator,
 		// If this alone would exceed memlimit_threading, then we must
 		// use the single-threaded direct mode.
 		if (coder->mem_next_block > coder->memlimit_threading) {
+#ifdef TUKAANI_PROJECT_XZ_VERIF
+			VERIF_MT_EV(106, NULL, 3, 0, 0);
+#endif
 			coder->sequence = SEQ_BLOCK_DIRECT_INIT;
 			break;
 		}
@@ -1289,6 +1382,9 @@ stream_decode_mt(void *coder_ptr, const lzma_allocator *allocator,
 				lzma_block_unpadded_size(
 					&coder->block_options),
 				coder->block_options.uncompressed_size);
+#ifdef TUKAANI_PROJECT_XZ_VERIF
+		VERIF_MT_EV(107, NULL, ret, coder->mem_next_block, coder->memlimit_threading);
+#endif
 		if (ret != LZMA_OK) {
 			coder->pending_error = ret;
 			coder->sequence = SEQ_ERROR;
@@ -1323,6 +1419,9 @@ stream_decode_mt(void *coder_ptr, const lzma_allocator *allocator,
 				&block_can_start, true,
 				&wait_abs, &has_blocked));
 
+#ifdef TUKAANI_PROJECT_XZ_VERIF
+		VERIF_MT_EV(108, NULL, block_can_start, coder->pending_error, 0);
+#endif
 		if (coder->pending_error != LZMA_OK) {
 			coder->sequence = SEQ_ERROR;
 			break;
@@ -1432,6 +1531,9 @@ stream_decode_mt(void *coder_ptr, const lzma_allocator *allocator,
 			// and its memory usage is subtracted from mem_cached.
 			coder->mem_in_use += coder->mem_next_in
 					+ coder->mem_next_filters;
+#ifdef TUKAANI_PROJECT_XZ_VERIF
+			VERIF_MT_EV(109, NULL, coder->mem_next_in + coder->mem_next_filters, coder->mem_in_use, 0);
+#endif
 		}
 
 		// Allocate memory for the output buffer in the output queue.
@@ -1460,6 +1562,9 @@ stream_decode_mt(void *coder_ptr, const lzma_allocator *allocator,
 					&coder->thr->block_decoder, allocator,
 					&coder->thr->block_options);
 
+#ifdef TUKAANI_PROJECT_XZ_VERIF
+		VERIF_MT_EV(110, coder->thr, ret, 0, 0);
+#endif
 		// Free the allocated filter options since they are needed
 		// only to initialize the Block decoder.
 		lzma_filters_free(coder->filters, allocator);
@@ -1484,21 +1589,33 @@ stream_decode_mt(void *coder_ptr, const lzma_allocator *allocator,
 		// Get the preallocated output buffer.
 		coder->thr->outbuf = lzma_outq_get_buf(
 				&coder->outq, coder->thr);
+#ifdef TUKAANI_PROJECT_XZ_VERIF
+		VERIF_MT_EV(111, coder->thr, coder->thr->in_size, coder->thr->outbuf->allocated, 0);
+#endif
 
 		// Start the decoder.
 		mythread_sync(coder->thr->mutex) {
 			assert(coder->thr->state == THR_IDLE);
 			coder->thr->state = THR_RUN;
+#ifdef TUKAANI_PROJECT_XZ_VERIF
+			VERIF_MT_EV(112, coder->thr, 0, 0, 0);
+#endif
 			mythread_cond_signal(&coder->thr->cond);
 		}
 
 		// Enable output from the thread that holds the oldest output
 		// buffer in the output queue (if such a thread exists).
 		mythread_sync(coder->mutex) {
+#ifdef TUKAANI_PROJECT_XZ_VERIF
+			VERIF_MT_EV(113, NULL, 0, 0, 0);
+#endif
 			lzma_outq_enable_partial_output(&coder->outq,
 					&worker_enable_partial_update);
 		}
 
+#ifdef TUKAANI_PROJECT_XZ_VERIF
+		VERIF_MT_EV(127, NULL, 0, 0, 0);
+#endif
 		coder->sequence = SEQ_BLOCK_THR_RUN;
 		FALLTHROUGH;
 	}
@@ -1524,9 +1641,15 @@ stream_decode_mt(void *coder_ptr, const lzma_allocator *allocator,
 		lzma_bufcpy(in, in_pos, in_size, coder->thr->in,
 				&cur_in_filled, coder->thr->in_size);
 
+#ifdef TUKAANI_PROJECT_XZ_VERIF
+		VERIF_MT_EV(114, coder->thr, cur_in_filled, *in_pos == in_size, coder->thr->in_size);
+#endif
 		// Tell the thread how much we copied.
 		mythread_sync(coder->thr->mutex) {
 			coder->thr->in_filled = cur_in_filled;
+#ifdef TUKAANI_PROJECT_XZ_VERIF
+			VERIF_MT_EV(115, coder->thr, cur_in_filled, 0, 0);
+#endif
 
 			// NOTE: Most of the time we are copying input faster
 			// than the thread can decode so most of the time
@@ -1558,6 +1681,9 @@ stream_decode_mt(void *coder_ptr, const lzma_allocator *allocator,
 			break;
 		}
 
+#ifdef TUKAANI_PROJECT_XZ_VERIF
+		VERIF_MT_EV(116, coder->thr, coder->thr->in_filled < coder->thr->in_size, coder->pending_error, 0);
+#endif
 		// Return if the input didn't contain the whole Block.
 		//
 		// NOTE: When we updated coder->thr->in_filled a few lines
@@ -1590,6 +1716,9 @@ stream_decode_mt(void *coder_ptr, const lzma_allocator *allocator,
 		if (!lzma_outq_is_empty(&coder->outq))
 			return LZMA_OK;
 
+#ifdef TUKAANI_PROJECT_XZ_VERIF
+		VERIF_MT_EV(117, NULL, 0, 0, 0);
+#endif
 		// Free the cached output buffers.
 		lzma_outq_clear_cache(&coder->outq, allocator);
 
@@ -1607,6 +1736,9 @@ stream_decode_mt(void *coder_ptr, const lzma_allocator *allocator,
 		lzma_filters_free(coder->filters, allocator);
 		coder->block_options.filters = NULL;
 
+#ifdef TUKAANI_PROJECT_XZ_VERIF
+		VERIF_MT_EV(118, NULL, ret, 0, 0);
+#endif
 		// Check if Block decoder initialization succeeded.
 		if (ret != LZMA_OK)
 			return ret;
@@ -1627,6 +1759,9 @@ stream_decode_mt(void *coder_ptr, const lzma_allocator *allocator,
 				action);
 		coder->progress_in += *in_pos - in_old;
 		coder->progress_out += *out_pos - out_old;
+#ifdef TUKAANI_PROJECT_XZ_VERIF
+		VERIF_MT_EV(119, NULL, ret, *out_pos - out_old, *in_pos - in_old);
+#endif
 
 		if (ret != LZMA_STREAM_END)
 			return ret;
@@ -1649,6 +1784,9 @@ stream_decode_mt(void *coder_ptr, const lzma_allocator *allocator,
 				out, out_pos, out_size,
 				NULL, true, &wait_abs, &has_blocked));
 
+#ifdef TUKAANI_PROJECT_XZ_VERIF
+		VERIF_MT_EV(140, NULL, !lzma_outq_is_empty(&coder->outq), 0, 0);
+#endif
 		if (!lzma_outq_is_empty(&coder->outq))
 			return LZMA_OK;
 
@@ -1668,6 +1806,9 @@ stream_decode_mt(void *coder_ptr, const lzma_allocator *allocator,
 		const lzma_ret ret = lzma_index_hash_decode(coder->index_hash,
 				in, in_pos, in_size);
 		coder->progress_in += *in_pos - in_old;
+#ifdef TUKAANI_PROJECT_XZ_VERIF
+		VERIF_MT_EV(141, NULL, ret, 0, 0);
+#endif
 		if (ret != LZMA_STREAM_END)
 			return ret;
 
@@ -1752,11 +1893,17 @@ stream_decode_mt(void *coder_ptr, const lzma_allocator *allocator,
 			return LZMA_DATA_ERROR;
 		}
 
+#ifdef TUKAANI_PROJECT_XZ_VERIF
+		VERIF_MT_EV(143, NULL, 0, 0, 0);
+#endif
 		// Prepare to decode the next Stream.
 		return_if_error(stream_decoder_reset(coder, allocator));
 		break;
 
 	case SEQ_ERROR:
+#ifdef TUKAANI_PROJECT_XZ_VERIF
+		VERIF_MT_EV(142, NULL, coder->pending_error, coder->fail_fast, 0);
+#endif
 		if (!coder->fail_fast) {
 			// Let the application get all data before the point
 			// where the error was detected. This matches the
@@ -1795,6 +1942,9 @@ stream_decoder_mt_end(void *coder_ptr, const lzma_allocator *allocator)
 {
 	struct lzma_stream_coder *coder = coder_ptr;
 
+#ifdef TUKAANI_PROJECT_XZ_VERIF
+	VERIF_MT_EV(150, NULL, 0, 0, 0);
+#endif
 	threads_end(coder, allocator);
 	lzma_outq_end(&coder->outq, allocator);
 
